@@ -685,6 +685,9 @@ class MDMFDirectoryURIVerifier(_DirectoryBaseURI):
     def get_readonly(self):
         return self
 
+    def get_verify_cap(self):
+        return self
+
 
 @implementer(IURI, IVerifierURI)
 class DirectoryURIVerifier(_DirectoryBaseURI):
@@ -708,6 +711,9 @@ class DirectoryURIVerifier(_DirectoryBaseURI):
         return True
 
     def get_readonly(self):
+        return self
+
+    def get_verify_cap(self):
         return self
 
 
